@@ -679,6 +679,21 @@ func (s *sim) shutdown(maxSleep time.Duration) {
 	} else {
 		s.openAll()
 	}
+	// while Wait() is in progress, producers keep trying: every such PushTask must come back with the context's
+	// error, and it must not disturb Wait() (a producer that retries during shutdown is ordinary use)
+	for h := 0; h < 3; h++ {
+		s.producers.Add(1)
+		go func(h int) {
+			defer s.producers.Done()
+			for k := 0; k < 40; k++ {
+				t := s.newTask(TaskSpec{Kind: TInstant}, (h+k)%s.p.LaneSize)
+				s.push(t, true)
+				if k%8 == 7 {
+					runtime.Gosched()
+				}
+			}
+		}(h)
+	}
 	waitCalled := time.Now()
 	s.tl.Wait() // if a lane goroutine never exits, the bubble reports a deadlock here
 	if last := time.Unix(0, s.lastReturn.Load()); s.lastReturn.Load() != 0 && last.After(waitCalled) {
